@@ -332,6 +332,37 @@ def _first_crash(config, req, strs, env):
     return hi - 1
 
 
+def rounding_modes(ck, prefix, config, jobs, rel=1e-9, special=None):
+    """A host thread that runs in a directed rounding mode (fesetround: interval arithmetic, some numerical libraries) gets the same answers up to
+    rounding: every value within rel (relative, plus rel x the largest magnitude of the job for sums that cancel) of the round-to-nearest value,
+    errors exactly where round-to-nearest has them.  jobs: list of (name, args...) ; special: list of (name, kwargs) for Lib.special requests whose
+    three output values are compared.  Returns the number of calls."""
+    base = Lib(config, shuffle=False)
+    n = 0
+    work = [(j[0], lambda L, j=j: L.call(j[0], *j[1:]), 1) for j in jobs] + [(nm, lambda L, nm=nm, kw=kw: L.special(nm, **kw), 3) for nm, kw in (special or [])]
+    for name, run, nv in work:
+        ref = run(base); n += len(ref)
+        scale = float(np.nanmax(np.abs(np.where(np.isfinite(ref.v3[:, :nv]), ref.v3[:, :nv], 0.0)))) if len(ref) else 0.0
+        for mode in ('up', 'down', 'zero'):
+            try:
+                r = run(Lib(config, shuffle=False, env={'XV_ROUND': mode})); n += len(r)
+            except ExecCrash as ex:
+                ck.violation('%s:%s:dies-in-rounding-mode-%s' % (prefix, name, mode), '%s kills the executor (rc %d) when the host thread rounds %s' % (name, ex.rc, mode), dict(function=name, config=config))
+                continue
+            st_bad = np.nonzero((r.status & 1) != (ref.status & 1))[0]
+            a, b = r.v3[:, :nv], ref.v3[:, :nv]
+            with np.errstate(invalid='ignore'):
+                off = (np.abs(a - b) > rel * np.abs(b) + rel * scale) & ~(np.isnan(a) & np.isnan(b))
+            v_bad = np.nonzero(off.any(axis=1) & ((ref.status & 1) == 0) & ((r.status & 1) == 0))[0]
+            for k in st_bad[:2]:
+                ck.violation('%s:%s:fails-or-succeeds-differently-in-a-directed-rounding-mode' % (prefix, name), '%s (request %d of the job) %s when the host thread rounds %s and %s in round-to-nearest' % (
+                    name, int(k), 'fails' if r.status[k] & 1 else 'succeeds', mode, 'fails' if ref.status[k] & 1 else 'succeeds'), dict(function=name, request=int(k), mode=mode, config=config))
+            for k in v_bad[:2]:
+                ck.violation('%s:%s:value-depends-on-the-rounding-mode-of-the-host' % (prefix, name), '%s (request %d of the job) returns %r when the host thread rounds %s and %r in round-to-nearest (allowed: %g relative)' % (
+                    name, int(k), a[k].tolist(), mode, b[k].tolist(), rel), dict(function=name, request=int(k), mode=mode, config=config, value=a[k].tolist(), nearest=b[k].tolist()))
+    return n
+
+
 def dirty_tree(ck, prefix, config, jobs):
     """The library built by the project's build system gives the same bits as the build of the clean copy when
       (a) the tree ALSO holds the git-ignored leftovers of an earlier in-tree build (a stale src/xrayglob_inline.c whose every number differs,
